@@ -96,11 +96,14 @@
   answer; the answer is the meta session's YIELD / ERROR (authz
   never applies to the meta session)
   a CALL of a meta procedure by an attached client is answered in    C18_call_roundtrip_stmt (statement),
-  the same step with RESULT / ERROR rendered from `metaProc` on      C18_call_roundtrip_partial,
-  the state after the CALL was routed (full statement false in       C18_call_roundtrip_stmt_full_fails,
-  the model only through `Op.join metaKey`, a model artifact)        C18_meta_answer_delivered
+  the same step with RESULT / ERROR rendered from `metaProc` on      C18_call_roundtrip_stmt_holds (every
+  the state after the CALL was routed — in EVERY reachable realm:    reachable realm), C18_call_roundtrip_partial
+  the meta registrations are intact (`Realm.Reachable.metaRegs`)     (state level), C18_meta_regs_intact,
+                                                                     C18_meta_answer_delivered
   registration events on leave: per registration the session is a   C18_events_leave_regs,
-  callee of, in callee-index order, on_unregister then on_delete     C18_events_leave_exact
+  callee of, in callee-index order, on_unregister then on_delete     C18_events_leave_exact (state level),
+                                                                     C18_events_leave_exact_reachable,
+                                                                     C18_events_leave_regs_reachable
   iff it was the last callee; nothing for other registrations;
   all tasks of a departure = pending ++ these ++ testaments ++ [on_leave]
 
@@ -117,6 +120,7 @@
 import Nexus.L2.Proofs.RealmMetaEvents
 import Nexus.L2.Proofs.RealmLeave
 import Nexus.L2.Proofs.WpAC18Call
+import Nexus.L2.Proofs.RealmMetaRegs
 
 namespace Nexus.C18
 open Nexus.L2 Nexus.L2.Realm Nexus.Gen.N
@@ -347,12 +351,23 @@ theorem C18_sub_match_routes (r : Realm) (req : Nat) (details : Dict) (kw : Dict
 
 /-! ## Meta events -/
 
-/-- A join is announced by exactly one `wamp.session.on_join` publication task carrying the
-    cleaned session details; nothing else is queued. -/
+/-- A join (under a session id as the router draws it: not the meta session's, not one in use) is
+    announced by exactly one `wamp.session.on_join` publication task carrying the cleaned session
+    details; nothing else is queued.  A `join` under the meta session's key or the key of an attached
+    client cannot occur; in the model it changes nothing (and announces nothing). -/
 theorem C18_events_join (r : Realm) (k : SessKey) (isLocal : Bool) (details : Dict) (roles : Roles) (cap : Nat) :
-    (r.stepOp (.join k isLocal details roles cap)).tasks =
-      r.tasks ++ [.metaPub { topic := MetaEventSessionOnJoin, args := [.dict (r.cleanDetails details)] }] := by
-  rw [stepOp_join]; rfl
+    ((k ≠ metaKey ∧ ∀ c ∈ r.clients, c.key ≠ k) →
+      (r.stepOp (.join k isLocal details roles cap)).tasks =
+        r.tasks ++ [.metaPub { topic := MetaEventSessionOnJoin, args := [.dict (r.cleanDetails details)] }]) ∧
+    (¬ (k ≠ metaKey ∧ ∀ c ∈ r.clients, c.key ≠ k) → r.stepOp (.join k isLocal details roles cap) = r) := by
+  constructor
+  · rintro ⟨h1, h2⟩
+    rw [stepOp_join_fresh _ _ _ _ h1 h2]; rfl
+  · intro h
+    apply stepOp_join_noop
+    apply Classical.byContradiction
+    intro hg
+    exact h (join_guard_false hg)
 
 /-- A departure in any non-shutdown mode (lost, killed by kill / kill_by_* / kill_all, aborted,
     violation) appends, after whatever
@@ -1128,19 +1143,21 @@ example (req inv : Nat) (a : List WVal) (kw : Dict) (uri : String) :
     WITHIN THE SAME STEP: exactly one message is appended to the caller's queue, the RESULT / ERROR rendered from
     `metaProc` evaluated on the realm state after the CALL was routed.
 
-    FALSE as stated in the present model (`C18_call_roundtrip_stmt_full_fails`): `Reachable` admits
-    `Op.join metaKey …` (a client attached under the meta session's key, which no router produces); when such a
-    client leaves, the dealer's `syncRemoveSession metaKey` deletes the meta registrations and every later meta CALL
-    is answered no_such_procedure.  What is proved is `C18_call_roundtrip_partial`: the same conclusion from the state facts
-    "the best match of `proc` is a registration of the meta session alone, bound to meta procedure `mp`" — which
-    hold in every freshly created realm (example below) and are preserved by every dealer step that does not
-    remove session `metaKey` (registrations lose callees only by UNREGISTER / departure of that callee:
-    `DStep.calleeRel_frame`).  For the kill procedures the answer is queued BEHIND the departures they cause, whose
-    meta events may reach the caller first: the caller still gets its RESULT (by `C18_meta_answer_delivered`, if
-    its queue has room then), but not "appended next". -/
+    PROVED: `C18_call_roundtrip_stmt_holds`, from `C18_call_roundtrip_partial` (the same conclusion from the state
+    facts "the best match of `proc` is a registration of the meta session alone, bound to meta procedure `mp`")
+    and the invariant `Realm.Reachable.metaRegs` (Nexus/L2/Proofs/RealmMetaRegs.lean): in every reachable realm
+    every configured meta procedure still has its registration — exact match, only callee the meta session,
+    caller disclosure on, bound to its name in `metaProcs` — because a registration loses a callee only by that
+    callee's UNREGISTER or departure, and the meta session sends nothing but YIELD / ERROR and never leaves.
+    (While `Reachable` admitted `Op.join metaKey …` the statement was false: a client attached under the meta
+    session's key, leaving, took the meta registrations with it — the former witness
+    `C18_call_roundtrip_stmt_full_fails`.  That input is now a no-op of the model; the hypothesis `k ≠ metaKey`
+    the statement used to carry is derivable and has been dropped.)  For the kill procedures the answer is queued
+    BEHIND the departures they cause, whose meta events may reach the caller first: the caller still gets its
+    RESULT (by `C18_meta_answer_delivered`, if its queue has room then), but not "appended next". -/
 def C18_call_roundtrip_stmt : Prop :=
   ∀ (cfg : Config) (r : Realm), Realm.Reachable cfg r → r.tasks = [] →
-  ∀ (k : SessKey) (c : Session), k ≠ metaKey → r.clients.find? (fun c => c.key == k) = some c →
+  ∀ (k : SessKey) (c : Session), r.clients.find? (fun c => c.key == k) = some c →
     r.ending.contains k = false → r.busy k = false →
   ∀ (req : Nat) (opts : Dict) (proc : String) (args : List WVal) (kw : Dict),
     proc ∈ metaProcNames cfg → isKillProc proc = false →
@@ -1152,91 +1169,6 @@ def C18_call_roundtrip_stmt : Prop :=
       details.get? "caller" = some (sidVal k) ∧
       R.queueOf k = r.queueOf k ++
         [callerReply req (metaProc { handleCall r c req opts proc args kw with tasks := [] } proc invId details args kw).1]
-
-/-- the witness history: a client attaches under the meta session's key and is dropped, then client 5 joins -/
-def rtW0 : Realm := registerMeta ({} : Realm) (metaProcNames {})
-def rtW1 : Realm := (rtW0.step (.join metaKey true [] [] 8)).2
-def rtW2 : Realm := (rtW1.step (.drop metaKey)).2
-def rtW3 : Realm := (rtW2.step (.join 5 true [] [] 8)).2
-
-theorem rtW0_create : Realm.create {} = some rtW0 := by
-  unfold Realm.create
-  have h1 : historyOk {} = true := by decide +kernel
-  have h2 : validUri ({} : Config).strict "" ({} : Config).uri = true := by decide +kernel
-  simp only [h1, h2, Bool.not_true, Bool.false_eq_true, if_false]
-  rfl
-
-theorem rtW3_reach : Realm.Reachable {} rtW3 :=
-  .step _ (.step _ (.step _ (.init rtW0_create)))
-
-def rtIsResult : Msg → Bool
-  | .result .. => true
-  | _ => false
-
-/-- everything the refutation needs to know about the witness, evaluated by the kernel -/
-theorem rtW3_facts :
-    (rtW3.tasks.isEmpty = true ∧ rtW3.cfg.authz.isNone = true ∧
-     (rtW3.clients.find? (fun c => c.key == 5)).map (fun c => c.cap) = some 8 ∧
-     rtW3.ending.contains 5 = false ∧ rtW3.busy 5 = false ∧ rtW3.ds.d.byCall? ⟨5, 1⟩ = none ∧ rtW3.queueLen 5 = 0) ∧
-    ((rtW3.step (.msg 5 (.call 1 [] MetaProcSessionCount [] []))).1.out.all (fun q => q.2.all (fun m => !rtIsResult m)) = true ∧
-     (rtW3.step (.msg 5 (.call 1 [] MetaProcSessionCount [] []))).2.ghosts.contains 5 = false ∧
-     ((rtW3.step (.msg 5 (.call 1 [] MetaProcSessionCount [] []))).2.clients.find? (fun c => c.key == 5)).map (·.stalled) = some false) := by
-  constructor <;> decide +kernel
-
-/-- The full statement is FALSE in the present model (a model artifact, not a defect of the router): after a client
-    attached under the meta session's key (`Op.join metaKey`, which `Reachable` admits and no router produces) has
-    left, the meta registrations are gone and `wamp.session.count` is answered ERROR no_such_procedure by the dealer
-    instead of the RESULT `metaProc` would render. -/
-theorem C18_call_roundtrip_stmt_full_fails : ¬ C18_call_roundtrip_stmt := by
-  intro h
-  obtain ⟨⟨ht, hau, hcl, hend, hbusy, hb, hq⟩, hout, hgh, hst⟩ := rtW3_facts
-  obtain ⟨c, hc, hcap⟩ := Option.map_eq_some_iff.mp hcl
-  have hauth : authzGate rtW3 c (.call 1 [] MetaProcSessionCount [] []) = (true, rtW3) := by
-    unfold authzGate
-    have : rtW3.cfg.authz = none := by
-      cases hh : rtW3.cfg.authz with
-      | none => rfl
-      | some x => rw [hh] at hau; cases hau
-    rw [this]
-  obtain ⟨R, invId, details, hstep, _, _, hqueue⟩ :=
-    h {} rtW3 rtW3_reach (List.isEmpty_iff.mp ht) 5 c (by decide) hc hend hbusy 1 [] MetaProcSessionCount [] []
-      (by decide) (by decide) hauth hb rfl rfl (by rw [hq, hcap]; decide)
-  -- the answer would be a RESULT …
-  rw [metaProc_sessionCount] at hqueue
-  have hsf : sessFilter ([] : List WVal) = some [] := rfl
-  simp only [hsf] at hqueue
-  have hres : ∃ m, rtIsResult m = true ∧ m ∈ R.queueOf 5 := by
-    rw [hqueue]
-    exact ⟨_, rfl, List.mem_append_right _ (List.mem_singleton.2 rfl)⟩
-  obtain ⟨m, hm, hmem⟩ := hres
-  -- … found in the queue the client reads after the step
-  unfold Realm.queueOf at hmem
-  split at hmem
-  · rename_i q hfind
-    have hq1 : q.1 = 5 := by simpa using List.find?_some hfind
-    have hqm : q ∈ R.queues := List.mem_of_find?_eq_some hfind
-    have hfl : (rtW3.step (.msg 5 (.call 1 [] MetaProcSessionCount [] []))).1.out =
-        R.queues.filter (fun q => (if R.ghosts.contains q.1 then false else
-          match R.clients.find? (fun c => c.key == q.1) with
-          | some c => !c.stalled
-          | none => true) && !q.2.isEmpty) := by rw [hstep]; rfl
-    have hg : R.ghosts = (rtW3.step (.msg 5 (.call 1 [] MetaProcSessionCount [] []))).2.ghosts := by rw [hstep]; rfl
-    have hcs : R.clients = (rtW3.step (.msg 5 (.call 1 [] MetaProcSessionCount [] []))).2.clients := by rw [hstep]; rfl
-    have hin : q ∈ (rtW3.step (.msg 5 (.call 1 [] MetaProcSessionCount [] []))).1.out := by
-      rw [hfl, List.mem_filter]
-      refine ⟨hqm, ?_⟩
-      rw [hq1, hg, hgh, hcs]
-      obtain ⟨c', hc', hs'⟩ := Option.map_eq_some_iff.mp hst
-      rw [hc']
-      simp only [Bool.false_eq_true, if_false, hs', Bool.not_false, Bool.true_and, Bool.not_eq_true']
-      cases hqq : q.2 with
-      | nil => rw [hqq] at hmem; cases hmem
-      | cons a l => rfl
-    have := List.all_eq_true.mp (List.all_eq_true.mp hout q hin) m hmem
-    rw [hm] at this
-    cases this
-  · cases hmem
-
 
 /-- THE ROUND TRIP, proved from state facts (see `C18_call_roundtrip_stmt`).  `r`: dealer invariant, meta session
     under key 0, no task pending.  `k`: attached as `c`, handler idle, not ending, authorized, queue has room, no
@@ -1294,6 +1226,55 @@ example : ∃ (r : Realm) (c : Session) (reg : Reg),
   · show (registerMeta ({} : Realm) (metaProcNames {})).metaS.key = metaKey
     rw [(registerMeta_fields _ _).2.2.2.2.1]
   · rw [hid]; decide +kernel
+
+/-- THE ROUND TRIP HOLDS in every reachable realm (see `C18_call_roundtrip_stmt`): the witnesses are the fresh
+    invocation id of the meta session and the invocation details the dealer builds for it. -/
+theorem C18_call_roundtrip_stmt_holds : C18_call_roundtrip_stmt := by
+  intro cfg r h ht k c hc hend hbusy req opts proc args kw hproc hnk hauth hb hprog hppt hroom
+  obtain ⟨g, _, _, _, gc, gd, gm, gf⟩ := h.metaRegs hproc
+  obtain ⟨R, h1, h2, h3, h4⟩ := C18_call_roundtrip_partial h.inv.1.dinv h.metaSafe.mkey ht (h.find?_ne_meta hc) hc hend hbusy
+    req opts proc args kw hauth hb gm gc gd gf hnk hprog hppt hroom
+  exact ⟨R, genOf r.ds.invGen metaKey + 1, invDetails r.denv g k metaKey opts proc, h1, h2, h3, h4⟩
+
+/-- the invariant behind it, as a property of its own: in every reachable realm every configured meta procedure
+    is registered for the meta session alone (exact match, caller disclosure on), is the best match of its own
+    URI, and is bound to its name in `metaProcs` — whatever the clients have sent -/
+theorem C18_meta_regs_intact {cfg : Config} {r : Realm} (h : Realm.Reachable cfg r) {p : String}
+    (hp : p ∈ metaProcNames cfg) :
+    ∃ g ∈ r.ds.d.regs, g.proc = p ∧ g.kind = .exact ∧ g.callees = [metaKey] ∧ g.disclose = true ∧
+      r.ds.d.matchProcedure p = some g ∧ r.metaProcs.find? (fun e => e.1 == g.id) = some (g.id, p) :=
+  h.metaRegs hp
+
+-- non-vacuity: the reachable realm of the former counterexample history — `join metaKey`, `drop metaKey`, `join 5`
+-- (the first two are no-ops now) — answers `wamp.session.count` with RESULT(1, [1])
+example : let r0 : Realm := registerMeta ({} : Realm) (metaProcNames {})
+    let r3 : Realm := (((r0.step (.join metaKey true [] [] 8)).2.step (.drop metaKey)).2.step (.join 5 true [] [] 8)).2
+    r3.clients.map (·.key) = [5] ∧
+    ((r3.step (.msg 5 (.call 1 [] MetaProcSessionCount [] []))).1.out.map
+      (fun q => (q.1, q.2.map (fun m => match m with | .result req _ [.int n] _ => (req, n) | _ => (0, 0))))) =
+      [(5, [(1, 1)])] := by
+  decide +kernel
+
+/-- registration events of a departure in a REACHABLE realm: `C18_events_leave_exact` with its side conditions
+    discharged — the dealer invariant holds, and the key of an attached client is not the meta session's
+    (`Realm.Reachable.find?_ne_meta`), so "k is attached" is all that is asked -/
+theorem C18_events_leave_exact_reachable {cfg : Config} {r : Realm} (h : Realm.Reachable cfg r) {k : SessKey}
+    {s : Session} (mode : LeaveMode) (hf : r.clients.find? (fun c => c.key == k) = some s)
+    (hm : mode.isShutdown = false) :
+    (r.leave k mode).tasks =
+      r.tasks ++ ((idxIds r.ds.d.index k).flatMap (regDepartPubs r.ds.d k)).map Task.metaPub ++
+        testamentTasks (bucketOf r k) ++
+        [.metaPub { topic := MetaEventSessionOnLeave,
+                    args := [sidVal s.key, detailOr s.details "authid", detailOr s.details "authrole"] }] :=
+  C18_events_leave_exact h.inv.1.dinv (h.find?_ne_meta hf) mode hf hm
+
+/-- … and the realm clause of `C18_events_leave_regs` for every attached client of a reachable realm -/
+theorem C18_events_leave_regs_reachable {cfg : Config} {r : Realm} (h : Realm.Reachable cfg r) {k : SessKey}
+    {s : Session} (mode : LeaveMode) (hf : r.clients.find? (fun c => c.key == k) = some s) :
+    leaveBaseTasks r k mode =
+      r.tasks ++ (if mode.isShutdown then []
+                  else ((idxIds r.ds.d.index k).flatMap (regDepartPubs r.ds.d k)).map Task.metaPub) :=
+  C18_events_leave_regs.2.2.2 r k mode h.inv.1.dinv (h.find?_ne_meta hf)
 
 end WpA
 
